@@ -1,6 +1,6 @@
 """Human-written manifest text per property."""
 
-HOOK_COMMITS = ['7959c84', '2245d3a', '4a48362', '0dcdeb5', '19f7951', '189a70e', '4ae8053', '2882d8c', '39a057c']  # filled from `git -C /repo log --grep 'verif hooks'` below
+HOOK_COMMITS = ['7959c84', '2245d3a', '4a48362', '0dcdeb5', '19f7951', '189a70e', '4ae8053', '2882d8c', '39a057c', 'f8f96ea']  # filled from `git -C /repo log --grep 'verif hooks'` below
 
 NOTES = ("Technique family: machine-checked proof in Lean 4. Every check = lake build of the property's theorems (audited with #print axioms, "
          "no sorry/native_decide) + a correspondence run of the executable Lean model against the real Go code on the same op lines + a "
